@@ -15,7 +15,7 @@ def write_dataset(d: Path, evs, fname="data.json", ty_name=None) -> Path:
     ty_name = ty_name or S.s_ty
     spans = [dict(job_name=S.s_name(e["name"]), job_id=S.s_job(e["job"]), event_type=ty_name(e["ty"]), event_id=S.s_id(e["id"]),
                   start_timestamp=e["st"], end_timestamp=e["en"], application_name=S.s_app(e["app"]),
-                  parent_event_id=S.s_id(e["par"]) if e["par"] is not None else None) for e in evs]
+                  parent_event_id=("" if e["par"] == 0 else S.s_id(e["par"])) if e["par"] is not None else None) for e in evs]
     (data / fname).write_text(json.dumps({"spans": spans}))
     return data
 
